@@ -602,11 +602,23 @@ type caseCtx struct {
 	s     spec
 	L     int
 	names [3]string
+	note  string // replaces the spec string in replays (cases outside the covering array)
+}
+
+// abbr shortens the very long generated key names in replay records (they are bigName(len)).
+func abbr(n string) string {
+	if len(n) <= 300 {
+		return n
+	}
+	return fmt.Sprintf("%s... = bigName(%d)", n[:40], len(n))
 }
 
 func (c *caseCtx) replay(extra map[string]any) map[string]any {
 	m := map[string]any{"case": c.s.String(), "plaintext_len": c.L, "plaintext": "mon.NewRNG(\"c01-pt\", idx).Bytes(len)",
-		"key_name": c.names[0], "decryption_key_name": c.names[1], "override": c.names[2]}
+		"key_name": abbr(c.names[0]), "decryption_key_name": abbr(c.names[1]), "override": abbr(c.names[2])}
+	if c.note != "" {
+		m["case"] = c.note
+	}
 	for k, v := range extra {
 		m[k] = v
 	}
@@ -1023,7 +1035,8 @@ func structural(ct []byte, ptLen, kw, cph int, wfk []byte, manifestName string) 
 		return "scheme-line", fmt.Sprintf("first line is %q", l1)
 	}
 	if hdr > 65536 {
-		return "header-too-long", fmt.Sprintf("header is %d bytes", hdr)
+		// the published format sets no limit; whether such a document is usable is decided by the decryptions
+		rec.Count("struct.header_longer_than_64KiB", 1)
 	}
 	if !json.Valid(l2) {
 		return "manifest/not-json", "second line is not valid JSON"
@@ -1143,11 +1156,12 @@ func TestCheck(t *testing.T) {
 		"source styles {all-at-once, 1-byte, seeded random chunks, zero-length reads interleaved, last data together with EOF, io.Pipe writer with random write sizes}; consumers {io.ReadAll, 1-byte/61-byte buffer, random sizes, 70000-byte buffer}. "+
 		"The first cases form a seeded covering array of strength 2 over these 13 dimensions (every pair of values of every two dimensions), the thorough tier adds the full product length<=65537 x cipher x algorithm x key-name options and the full product of the four reader/consumer styles at seven boundary lengths, the rest are seeded random vectors. "+
 		"Each case is judged by: the structural monitor on the ciphertext bytes, refenc.Decrypt(kit.Encrypt(pt))==pt, kit.Decrypt(kit.Encrypt(pt))==pt with clean EOF, kit.Decrypt(refenc.Encrypt(pt))==pt, the wrap/unwrap argument monitor and the ErrDecryptionKeyMissing rule; in every odd-numbered case the key callbacks are busy: each call runs an independent small enc/v1 Encrypt/Decrypt round trip before answering (a key store that protects its own records with the scheme), which must neither fail nor disturb the outer stream. distinct = distinct dimension vectors; non-trivial = every case (a real encryption and three real decryptions); case 0 additionally decrypts kit's seven testdata files with refenc. Every case with at least 2 plaintext bytes is followed by an overlapped round trip: kit's ciphertext is opened with Decrypt and read to k bytes (k in {1,10,65535,65546}, or half the plaintext), then a complete Decrypt of the reference ciphertext and a complete Encrypt (checked by refenc) run, then the rest is read; all three must be exact. "+
+		"Long key names (after the huge cases): KeyName or DecryptionKeyName sized so that the three-line header is exactly N bytes for every N in 65534..65556 (every off-by-one around 65536 and 65552), and ordinary 10 KiB / 60 KiB names, x both ciphers x {A256KW, A128CBC-NOPAD, RSA-OAEP-256} (all seven in thorough), some with a long decrypt override; EITHER Encrypt refuses (counted per side of 65536) OR the document passes the structural monitor and is decrypted by refenc and by kit (seeded reader styles) to the plaintext; the published format sets no header limit and refenc imposes none. "+
 		"Huge cases (after the ordinary ones, each run by one child): a generated plaintext of 4 GiB + 64 KiB + 100 bytes = 65538 segments (every segment differs) is streamed through kit.Encrypt and decrypted by refenc's streaming reader (quick: AES-GCM; thorough: both ciphers and also refenc's streaming Encrypt -> kit.Decrypt), "+
 		"compared position by position with the generator, plus total length, segment count and ciphertext length; this is the only place where segment numbers >= 65536 (the upper half of the nonce's 32-bit counter) occur.")
 	rec.Note("require", []string{"callback.inner_round_trips", "struct.ok", "ref_decrypts_kit.ok", "kit_decrypts_ref.ok", "roundtrip.ok", "key_missing.ok", "testdata.files_decrypted_by_refenc",
 		"src.zero_length_reads", "src.eof_with_last_data", "src.pipe_sources", "length.len=0", "length.len=k*64K", "length.len=k*64K+1", "length.len=k*64K-1",
-		"overlap.ok", "huge.kit-to-ref.ok", "huge.segments_beyond_65535_authenticated", "alg.AES", "alg.RSA", "alg.A128CBC-NOPAD", "alg.A192CBC-NOPAD", "alg.A256CBC-NOPAD", "alg.A256KW", "alg.RSA-OAEP-256"})
+		"overlap.ok", "bigname.roundtrip_ok", "bigname.roundtrip_ok.header-le-65536", "bigname.roundtrip_ok.ordinary-long-name", "bigname.encrypt_accepted.header-le-65536", "huge.kit-to-ref.ok", "huge.segments_beyond_65535_authenticated", "alg.AES", "alg.RSA", "alg.A128CBC-NOPAD", "alg.A192CBC-NOPAD", "alg.A256CBC-NOPAD", "alg.A256KW", "alg.RSA-OAEP-256"})
 	rec.Note("plan", map[string]int{"covering_array_rows": nPairwise, "full_product_rows": nProduct, "total": len(specs)})
 	// the huge cases come after the ordinary ones; each is run by exactly one child
 	for i, h := range hugePlan() {
@@ -1158,6 +1172,17 @@ func TestCheck(t *testing.T) {
 		rec.Begin(idx, h.String())
 		if runHuge(idx, h) {
 			rec.Case(idx, h.String(), true)
+		}
+	}
+	// long key names: header lengths around 64 KiB (after the huge cases)
+	for i, bs := range bigPlan() {
+		idx := len(specs) + len(hugePlan()) + i
+		if !mon.Mine(idx) {
+			continue
+		}
+		rec.Begin(idx, bs.String())
+		if runBigName(idx, bs) {
+			rec.Case(idx, bs.String(), true)
 		}
 	}
 	for idx, s := range specs {
